@@ -587,11 +587,11 @@ func c18RawPeer(ctx context.Context, x *c18Exec, conn *quic.Conn, sc c18Script, 
 	}
 	// Content-Length agreement as seen by the handler
 	so := &x.srv[0]
-	if so.calls > 0 && so.bodyDone && so.contentLength >= 0 {
-		if int64(len(so.body)) > so.contentLength {
-			x.fail("long-body-silent:request", "%s: handler read %d body bytes although the request declared Content-Length %d", tag, len(so.body), so.contentLength)
-		} else if so.bodyErr == nil && int64(len(so.body)) < so.contentLength {
-			x.fail("short-body-silent-eof:request", "%s: handler's Request.Body ended in plain io.EOF after %d bytes although the request declared Content-Length %d (silent truncation)", tag, len(so.body), so.contentLength)
+	if so.calls > 0 && so.bodyDone && so.declaredCL >= 0 {
+		if int64(len(so.body)) > so.declaredCL {
+			x.fail("long-body-silent:request", "%s: handler read %d body bytes although the request declared Content-Length %d", tag, len(so.body), so.declaredCL)
+		} else if so.bodyErr == nil && int64(len(so.body)) < so.declaredCL {
+			x.fail("short-body-silent-eof:request", "%s: handler's Request.Body ended in plain io.EOF after %d bytes although the request declared Content-Length %d (silent truncation)", tag, len(so.body), so.declaredCL)
 		}
 	}
 	// the connection must still carry requests (stream-level events only)
